@@ -347,6 +347,6 @@ pub fn run(a: &Args) -> Report {
     });
     rep.merge(r);
     rep.sample(json!({"part": "local handshake", "lengths": "every domain length 0..=1024", "alphabets": ["LDH", "punctuation / arbitrary bytes (SOCKS5)", "multi-byte UTF-8"], "kinds": ["SOCKS5 CONNECT", "HTTP CONNECT", "HTTP GET absolute-URI"]}));
-    rep.extra.insert("exhaustive".into(), json!("all domain lengths 0..=1024 for each alphabet and handshake kind; all lengths 1..=255 x 3 alphabets x 5 ports for the encoder round trips"));
+    rep.extra.insert("exhaustive_detail".into(), json!("all domain lengths 0..=1024 for each alphabet and handshake kind; all lengths 1..=255 x 3 alphabets x 5 ports for the encoder round trips"));
     rep
 }
